@@ -751,3 +751,9 @@ v("c16-id-str-arm-guard-clause", "C16", "STR-VERBATIM", T + "scalars.py",
 # -- unfix variant of 7e103a9 ---------------------------------------------------------------------------------
 v("c01-unfix-natural-compare-int", "C01", "STR-TOTAL", "src/graphql/pyutils/natural_compare.py",
   "        (*numeric_order(part), part) if is_digit else part\n", "        (int(part), part) if is_digit else part\n")
+
+# -- round 5: C01 ------------------------------------------------------------------------------------------
+v("c01-returned-base-exception-reraised", "C01", "RAISED-VALUE-CLASS", E + "executor.py",
+  "        if isinstance(result, Exception):\n            raise result\n", "        if isinstance(result, BaseException):\n            raise result\n")
+v("c01-returned-exception-test-in-local", "C01", "RAISED-VALUE-CLASS", E + "executor.py",
+  "        if isinstance(result, Exception):\n            raise result\n", "        is_error = isinstance(result, Exception)\n        if is_error:\n            raise result\n", expect="silent")
